@@ -4,10 +4,12 @@ package main
 // property), split into the galaxy-owned part (compared with the expected-state model) and the foreign part
 // (compared byte for byte with the start of the run).
 //
-// Ownership rule used by the oracle: filter-table chains whose name starts with "GLX-", rules of built-in
-// filter chains that jump to GLX-INGRESS / GLX-EGRESS, and ipsets whose name starts with "GLX-". Everything
-// else - other chains and their rules, the remaining rules and the policies of built-in chains, the nat and
-// mangle tables, other sets - is foreign. (The generator never gives a foreign object a GLX- name.)
+// Ownership rule used by the oracle = galaxy's documented naming scheme: the filter-table chains GLX-INGRESS,
+// GLX-EGRESS, GLX-PLCY-<hash> and GLX-POD-<hash>, rules of built-in filter chains that jump to GLX-INGRESS /
+// GLX-EGRESS, and the ipsets GLX-ip-<hash>, GLX-sip-<i>-<hash>, GLX-snet-<i>-<hash>, GLX-dip-<i>-<hash>,
+// GLX-dnet-<i>-<hash>. Everything else - other chains and their rules (also chains and sets whose names merely
+// start with "GLX": GLX-FOO, GLX-PLCYBACKUP, GLXFW, GLX-backup), the remaining rules and the policies of built-in
+// chains, the nat and mangle tables, other sets - is foreign.
 
 import (
 	"fmt"
@@ -17,7 +19,17 @@ import (
 	"tkestack.io/galaxy/verifsim/simkernel"
 )
 
-func owned(name string) bool { return strings.HasPrefix(name, "GLX-") }
+func owned(name string) bool {
+	if name == ingressDispatch || name == egressDispatch {
+		return true
+	}
+	for _, pre := range []string{"GLX-PLCY-", "GLX-POD-", "GLX-ip-", "GLX-sip-", "GLX-snet-", "GLX-dip-", "GLX-dnet-"} {
+		if strings.HasPrefix(name, pre) {
+			return true
+		}
+	}
+	return false
+}
 
 // ObsSet is an observed ipset.
 type ObsSet struct {
